@@ -7,7 +7,7 @@ package main
 //   1301: (descriptor, option pair, b, ec1, J, ec2, b')          judged: in the domain b' must equal b byte for byte
 //   1302: (descriptor, option pair, J, ec2, b', ec3, J'')        judged: J'' must denote what the canonical document J denotes
 // Descriptor format = C02's (struct table + root type, see coq/model/Check02.v); every field carries the key t2j writes
-// (the alias) first and, when different, the field name second; the map-field way says which of them j2t accepts.
+// (FieldDescriptor.Alias() of the parsed descriptor) first and, when different, the field name second; the map-field way says which of them j2t accepts.
 
 import (
 	"context"
@@ -34,10 +34,11 @@ type gen13 struct {
 	vm     map[*Fld]bool
 	mapWay int // 0 alias, 1 field name, 2 both
 	root   *Ty
+	wkey   map[*Fld]string // the key the implementation's descriptor says t2j writes for the field (FieldDescriptor.Alias())
 }
 
 func newGen13(r *rng) *gen13 {
-	g := &gen13{gen03: &gen03{tgen: newTgen(r.fork()), extra: map[*Fld]*fx03{}}, alias: map[*Fld]string{}, vm: map[*Fld]bool{}}
+	g := &gen13{gen03: &gen03{tgen: newTgen(r.fork()), extra: map[*Fld]*fx03{}}, alias: map[*Fld]string{}, vm: map[*Fld]bool{}, wkey: map[*Fld]string{}}
 	g.maxDepth = 2 + r.intn(3)
 	g.maxFields = 2 + r.intn(5)
 	g.allowReq = true
@@ -161,7 +162,7 @@ func (g *gen13) descFields13() []string {
 	for _, s := range g.structs {
 		out = append(out, fi(len(s.Fields)))
 		for _, f := range s.Fields {
-			ks := []string{g.aliasOf(f)}
+			ks := []string{g.wkey[f]}
 			if f.Name != ks[0] {
 				ks = append(ks, f.Name)
 			}
@@ -195,9 +196,12 @@ func (g *gen13) checkDesc(t *Ty, d *thrift.TypeDescriptor, seen map[*Ty]bool) {
 			if fd == nil {
 				die("C13: field %d missing in descriptor", f.ID)
 			}
-			if fd.Alias() != g.aliasOf(f) || fd.Name() != f.Name {
+			// the written key is taken from the descriptor itself; it must be the declared alias (under MapFieldUseFieldName
+			// a tree that writes the field name instead is consistent too)
+			if fd.Name() != f.Name || !(fd.Alias() == g.aliasOf(f) || (g.mapWay == 1 && fd.Alias() == f.Name)) {
 				die("C13: field %d alias %q name %q, expected %q %q", f.ID, fd.Alias(), fd.Name(), g.aliasOf(f), f.Name)
 			}
+			g.wkey[f] = fd.Alias()
 			g.checkDesc(f.T, fd.Type(), seen)
 		}
 	case thrift.LIST, thrift.SET:
